@@ -392,6 +392,7 @@ func (self *Analyzer) letStatement(node pAst.LetStatement, isGlobal bool) ast.An
 		VarType:                    varType,
 		NeedsRuntimeTypeValidation: rhsHasAny,
 		OptType:                    optType,
+		IsPub:                      node.IsPub,
 		Range:                      node.Range,
 	}
 }
